@@ -56,3 +56,14 @@ Proof. exact Gen_tables.gen_case_diffb_eq. Qed.
 Lemma tie_generated_case_lowerb : forall s : Bytes.bytes, GenCommon.bytes_ok s -> Z.of_nat (List.length s) < 2 ^ 32 ->
   option_map (fun r => CGen.C_case_lowerb.a_s (snd r)) (CGen.C_case_lowerb.run (S (List.length s)) (GenCommon.zs s) 0 (Z.of_nat (List.length s))) = Some (GenCommon.zs (Bytes.lowers s)).
 Proof. exact Gen_tables.gen_case_lowerb_eq. Qed.
+(* ip_scanbracket() (the localiphost substitution: which bracketed address is recognised, which octets) as generated from
+   today's ip.c and scan_ulong.c = the session model's ip_scanbracket *)
+From NQ Require Smtp.Smtpd Tie.Gen_addr.
+Lemma tie_generated_ip_scanbracket : forall (s : Bytes.bytes) (ip : list Z) octets rest, GenCommon.bytes_ok s -> ~ In 0%N s -> List.length ip = 4%nat -> Z.of_nat (List.length s) < 2 ^ 31 ->
+  Smtpd.ip_scanbracket s = Some (octets, rest) ->
+  option_map (fun r => (fst r, CGen.C_ip_scanbracket.a_ip__d (snd r))) (CGen.C_ip_scanbracket.run (S (S (List.length s))) (GenCommon.zs s ++ [0]) 0 ip)
+  = Some (Z.of_nat (List.length s - List.length rest), GenCommon.zs octets).
+Proof. exact Gen_addr.gen_ip_scanbracket_eq. Qed.
+Lemma tie_generated_ip_scanbracket_none : forall (s : Bytes.bytes) (ip : list Z), GenCommon.bytes_ok s -> ~ In 0%N s -> List.length ip = 4%nat -> Z.of_nat (List.length s) < 2 ^ 31 ->
+  Smtpd.ip_scanbracket s = None -> GenCommon.retval (CGen.C_ip_scanbracket.run (S (S (List.length s))) (GenCommon.zs s ++ [0]) 0 ip) = Some 0.
+Proof. exact Gen_addr.gen_ip_scanbracket_none. Qed.
